@@ -217,6 +217,16 @@ func (x *Exec) tr(e *Expr, env *Env) (Term, error) {
 			}
 			return tBool(mkNot(a.S)), nil
 		}
+		if e.Name == "*" {
+			if a.T == nil {
+				return Term{}, fmt.Errorf("dereference of an untyped value")
+			}
+			if _, ok := types.Unalias(a.T).Underlying().(*types.Pointer); !ok {
+				return Term{}, fmt.Errorf("dereference of a non-pointer")
+			}
+			p := x.ptrPlaceT(nil, nil, a, 0)
+			return x.loadPlace(nil, env.state(), p), nil
+		}
 		return Term{S: app("-", a.S), Sort: a.Sort, T: a.T}, nil
 	case "binary":
 		return x.trBinary(e, env)
@@ -796,6 +806,23 @@ func (x *Exec) trCall(e *Expr, env *Env) (Term, error) {
 				return tBool(ok), nil
 			}
 			return val, nil
+		case "reMatch", "rePattern", "reCompiles":
+			args, err := trArgs()
+			if err != nil {
+				return Term{}, err
+			}
+			x.vc.declFun("uf_re_pattern", []string{SInt}, SStr)
+			x.vc.declFun("uf_re_match", []string{SStr, SStr}, SBool)
+			x.vc.declFun("uf_re_compiles", []string{SStr}, SBool)
+			switch {
+			case callee.Name == "reMatch" && len(args) == 2 && args[0].Sort == SStr && args[1].Sort == SStr:
+				return tBool(app("uf_re_match", args[0].S, args[1].S)), nil
+			case callee.Name == "rePattern" && len(args) == 1 && args[0].Sort == SInt:
+				return Term{S: app("uf_re_pattern", args[0].S), Sort: SStr, T: types.Typ[types.String]}, nil
+			case callee.Name == "reCompiles" && len(args) == 1 && args[0].Sort == SStr:
+				return tBool(app("uf_re_compiles", args[0].S)), nil
+			}
+			return Term{}, fmt.Errorf("bad arguments to %s", callee.Name)
 		case "sameArray":
 			args, err := trArgs()
 			if err != nil {
